@@ -251,7 +251,7 @@ Qed.
 Lemma node_row_sim phi sr sc cr cls payloads dec0 sr' sc' :
   Sim phi sr sc -> StOK fresh GP sc -> row_ok cr -> r_type (cr_row cr) = TNode cls payloads dec0 ->
   step_row nab sr (cr_row cr) = Some sr' -> cstep fresh sc cr = Ok sc' ->
-  exists phi', Sim phi' sr' sc'.
+  exists phi', Sim phi' sr' sc' /\ cs_heads sc' = cs_heads sc.
 Proof.
   intros Hsim Hst [Hedges Hrow] Ht. rewrite Ht in Hrow. destruct Hrow as (Hname & Huuid & -> & -> & Hacts).
   unfold step_row, cstep. rewrite Ht, Hname, Huuid. cbn [or_default].
@@ -327,6 +327,104 @@ Proof.
   { apply Sim_add_group; [exact Hs2| | |intros ps k0; discriminate].
     - apply (GS_row phi2 (cs_nodes sc2) k (kind_cls kind) (j, None) (rowtype_of kind) nd2); [exact Hk2|exact Hj2|eapply class_ok_same; eauto].
     - intros x [<-|[]]. apply (gframe_grow _ _ k Hf2); [cbn; rewrite app_length; cbn; unfold k; lia|exact Hknew]. }
-  destruct G as [G1 G2 G3 G4 G5 G6 G7 G8]. constructor; assumption.
+  split; [destruct G as [G1 G2 G3 G4 G5 G6 G7 G8]; constructor; assumption|].
+  cbn. rewrite (ext_heads _ _ He2). reflexivity.
 Qed.
+
+(* hard_exit / loose_exit rows *)
+Lemma exit_rows_sim phi sr sc es tgt dd sr' sc' :
+  Sim phi sr sc -> StOK fresh GP sc -> Forall edge_ok es -> dest_sim phi (cuu sc) tgt dd ->
+  fold_edges nab sr es (fun _ => tgt) = Some sr' -> foldM (fun s' e => cadd_row_edge fresh s' e dd) es sc = Ok sc' ->
+  exists phi', Sim phi' sr' sc' /\ cs_heads sc' = cs_heads sc.
+Proof.
+  intros Hsim Hst Hes Hd H1 H2. destruct (fold_edges_sim es phi sr sc tgt dd sr' sc' Hsim Hst Hes Hd H1 H2) as (phi' & H & _ & _ & He & _).
+  exists phi'. split; [exact H|apply (ext_heads _ _ He)].
+Qed.
+
+(* go_to rows *)
+Lemma goto_sim (l : list (redge * str)) : forall phi sr sc sr' sc',
+  Sim phi sr sc -> StOK fresh GP sc -> Forall (fun et => edge_ok (fst et)) l ->
+  fold_left (fun os et => match os with
+                          | None => None
+                          | Some s' => match alookup (s_rowmap s') (snd et) with
+                                       | None => None
+                                       | Some g => match entry_node (fuel_of s') s' g with
+                                                   | Some k => add_row_edge nab s' (fst et) (DNode k)
+                                                   | None => None end end end) l (Some sr) = Some sr' ->
+  foldM (fun s' et => match alookup (cs_rowmap s') (snd et) with
+                      | None => Err (ECrash CKeyError)
+                      | Some g => match centry (cfuel s') s' g with
+                                  | Err x => Err x
+                                  | Ok k => match nth_error (cs_nodes s') k with
+                                            | Some nd => cadd_row_edge fresh s' (fst et) (Some (cn_uuid nd))
+                                            | None => Err EInternal end end end) l sc = Ok sc' ->
+  exists phi', Sim phi' sr' sc' /\ cs_heads sc' = cs_heads sc.
+Proof.
+  induction l as [|et r IH]; intros phi sr sc sr' sc' Hsim Hst Hl; cbn [fold_left foldM].
+  - intros H1 H2. injection H1 as <-. injection H2 as <-. exists phi. split; [exact Hsim|reflexivity].
+  - inversion Hl as [|? ? He Hr]; subst. rewrite (sim_rowmap _ _ _ Hsim).
+    destruct (alookup (cs_rowmap sc) (snd et)) as [g|].
+    2:{ intros H. exfalso. clear - H. induction r as [|a r IHr]; cbn in H; [discriminate|auto]. }
+    rewrite (fuel_sim _ _ _ Hsim).
+    destruct (entry_node (cfuel sc) sr g) as [k|] eqn:E1.
+    2:{ intros H. exfalso. clear - H. induction r as [|a r IHr]; cbn in H; [discriminate|auto]. }
+    destruct (centry (cfuel sc) sc g) as [k1|x] eqn:E2; [|discriminate].
+    destruct (entry_sim fresh fresh_inj _ _ _ _ _ _ _ Hsim E1 E2) as (c & Hc & Ec).
+    destruct (nth_error (cs_nodes sc) k1) as [nd|] eqn:En; [|discriminate].
+    destruct (add_row_edge nab sr (fst et) (DNode k)) as [s1|] eqn:A1.
+    2:{ intros H. exfalso. clear - H. induction r as [|a r IHr]; cbn in H; [discriminate|auto]. }
+    destruct (cadd_row_edge fresh sc (fst et) (Some (cn_uuid nd))) as [c1|x] eqn:A2; [|discriminate].
+    intros H1 H2.
+    assert (Hd : dest_sim phi (cuu sc) (DNode k) (Some (cn_uuid nd))).
+    { cbn. split; [eapply uuid_not_sentinel; eauto|]. exists c. split; [exact Hc|]. rewrite Ec. unfold cuu. rewrite nth_error_map, En. reflexivity. }
+    destruct (add_row_edge_sim phi sr sc (fst et) (DNode k) (Some (cn_uuid nd)) s1 c1 Hsim Hst He Hd A1 A2) as (phi1 & S1 & _ & T1 & X1 & _).
+    destruct (IH phi1 s1 c1 sr' sc' S1 T1 Hr H1 H2) as (phi2 & S2 & E2'). exists phi2. split; [exact S2|].
+    rewrite E2'. apply (ext_heads _ _ X1).
+Qed.
+
+(* the parents of a no_op / of a block head *)
+Lemma noop_parents_sim phi sr sc edges : forall acc ps ps',
+  Sim phi sr sc -> Forall edge_ok edges -> Forall (fun p : nat * econd => c_cname (snd p) = []) acc ->
+  fold_left (fun a e => match a with
+                        | None => None
+                        | Some q => match source_group sr e with
+                                    | None => None
+                                    | Some None => Some q
+                                    | Some (Some g) => Some (q ++ [(g, e_cond e)]) end end) edges (Some acc) = Some ps ->
+  foldM (fun q e => match csource sc e with
+                    | Err x => Err x
+                    | Ok None => Ok q
+                    | Ok (Some g) => Ok (q ++ [(g, e_cond e)]) end) edges acc = Ok ps' ->
+  ps = ps' /\ Forall (fun p : nat * econd => c_cname (snd p) = []) ps.
+Proof.
+  induction edges as [|e r IH]; intros acc ps ps' Hsim Hes Hacc; cbn.
+  - intros H1 H2. injection H1 as <-. injection H2 as <-. auto.
+  - inversion Hes as [|? ? He Hr]; subst. pose proof (source_sim phi sr sc e Hsim) as Hs.
+    destruct (source_group sr e) as [[g|]|], (csource sc e) as [[g'|]|x]; try contradiction; try discriminate.
+    + injection Hs as <-. apply IH; auto. apply Forall_app. split; [exact Hacc|constructor; [exact He|constructor]].
+    + apply IH; auto.
+Qed.
+
+Lemma noop_row_sim phi sr sc edges rid sr' sc' :
+  Sim phi sr sc -> Forall edge_ok edges ->
+  match fold_left (fun a e => match a with
+                        | None => None
+                        | Some q => match source_group sr e with
+                                    | None => None
+                                    | Some None => Some q
+                                    | Some (Some g) => Some (q ++ [(g, e_cond e)]) end end) edges (Some []) with
+  | None => None
+  | Some ps => Some (fst (RowSem.add_group sr (GNoOp ps None) rid)) end = Some sr' ->
+  cparse_noop sc edges rid = Ok sc' -> Sim phi sr' sc'.
+Proof.
+  intros Hsim Hes H1. unfold cparse_noop. destruct (fold_left _ edges (Some [])) as [ps|] eqn:E1; [|discriminate]. injection H1 as <-.
+  destruct (foldM _ edges []) as [ps'|x] eqn:E2; [|discriminate]. intros H. injection H as <-.
+  destruct (noop_parents_sim phi sr sc edges [] ps ps' Hsim Hes ltac:(constructor) E1 E2) as [<- Hps].
+  apply Sim_add_group; [exact Hsim|constructor; exact Hps|intros k []|intros q k; discriminate].
+Qed.
+
+(* only the stack of open blocks (and the heads the compiler remembers) changes *)
+Lemma Sim_with_stack phi sr sc stk hs :
+  Sim phi sr sc -> Sim phi (mkSt (s_nodes sr) (s_groups sr) (s_rowmap sr) (s_names sr) stk) (set_stack_heads sc stk hs).
+Proof. intros [H1 H2 H3 H4 H5 H6 H7 H8]. constructor; cbn; auto. Qed.
 End Step.
